@@ -320,13 +320,35 @@ func (c *ctx) replay(lines []string) {
 			}
 		case "xml":
 			b, _ := common.UnHex(f[3])
-			if e := find(strings.ReplaceAll(f[2], "_", " ")); e != nil {
+			if f[2] == "form.Data" {
+				fe := theFormEntry()
+				c.xmlCase(&fe, b, "replay")
+			} else if e := find(strings.ReplaceAll(f[2], "_", " ")); e != nil {
 				c.xmlCase(e, b, "replay")
 			} else if e := find(f[2]); e != nil {
 				c.xmlCase(e, b, "replay")
 			}
 		}
 	}
+}
+
+// theFormEntry: form.Data as a decoding type (arbitrary / mutated documents, second generation).
+func theFormEntry() entry {
+	return entry{name: "form.Data", dec: true,
+		unmarshal: func(b []byte) (string, error) {
+			var d form.Data
+			return safeUnmarshal(b, &d)
+		},
+		seeds: func(sub uint64) [][]byte {
+			g := &gen{r: common.NewRand(sub)}
+			fd := genFormDesc(g, true)
+			b, err := xml.Marshal(fd.build())
+			if err != nil {
+				return nil
+			}
+			return [][]byte{b}
+		},
+		decoded: formDecoded}
 }
 
 // Run is the C19 runner.
@@ -355,6 +377,7 @@ func Run(r *common.Run) error {
 		}
 		r.Extra["panic_skeletons"] = len(sk)
 		r.Extra["panic_allow_listed_sites"] = trusted
+		r.Notes = append(r.Notes, fmt.Sprintf("C19_no_panic_skel / C19_payload_code_never_panics are statements about the panic skeletons after removing %d partial operations accepted through harness/c19/allow.txt (each with a written justification) and the operations harness/c19/arith.go derives to be in range on this tree (listed in Generated/C19.lean)", trusted))
 	}
 
 	// corpus first
@@ -425,6 +448,7 @@ func Run(r *common.Run) error {
 	}
 	// stream decoders (Unwrap on arbitrary documents) and inserting transformers
 	streamCases(c)
+	pageIterCases(c)
 	// pubsub request builders on a real session
 	nPub := r.Pick(60, 600)
 	for k := 0; k < nPub; k++ {
@@ -433,20 +457,7 @@ func Run(r *common.Run) error {
 	}
 	// arbitrary XML into every unmarshaller
 	nXML := r.Pick(150, 2500)
-	formEntry := entry{name: "form.Data", dec: true,
-		unmarshal: func(b []byte) (string, error) {
-			var d form.Data
-			return safeUnmarshal(b, &d)
-		},
-		seeds: func(sub uint64) [][]byte {
-			g := &gen{r: common.NewRand(sub)}
-			fd := genFormDesc(g, true)
-			b, err := xml.Marshal(fd.build())
-			if err != nil {
-				return nil
-			}
-			return [][]byte{b}
-		}}
+	formEntry := theFormEntry()
 	r.Mark("case xml")
 	c.fuzzType(&formEntry, c.rnd.Fork(), nXML*3)
 	for i := range registry {
